@@ -21,7 +21,7 @@ RULE = (
 )
 TIERS = {"quick": {"shards": 8, "n": 2500, "budget_s": 200}, "thorough": {"shards": 16, "n": 40000, "budget_s": 2700}}
 FLOOR = {"quick": 300, "thorough": 20000}
-REQUIRED_LABELS = {"quick": ["style:rest", "style:google", "style:numpydoc", "footer", "indent=8", "indent=0"], "thorough": []}
+REQUIRED_LABELS = {"quick": ["style:rest", "style:google", "style:numpydoc", "footer", "indent=8", "indent=0", "header-mentions-section-keyword"], "thorough": []}
 ASSUMPTIONS = ["the splitter's `current` argument is never indented in real use (its only caller passes the freshly emitted section)"]
 TOKENS = (":param", ":type", ":return", ":rtype", "Args:", "Returns:", "Parameters\n", "Returns\n")
 
@@ -34,7 +34,7 @@ def init_worker(ctx):
 
 
 def strategy(ctx):
-    return gen_doc.docstr()
+    return gen_doc.docstr(mentions=True)
 
 
 def nows(s):
@@ -73,7 +73,8 @@ def check_split(r, d):
             if tag == "cur=orig" and d["indent"] == 0 and not orig[:1].isspace() and h + a + f != orig:
                 r.fail("concat-neq-original", "%r + %r + %r != %r" % (h[-40:], a[:60], f[:40], orig[:100]))
             continue
-        if any(t in h for t in TOKENS):
+        if any(l.strip().startswith(TOKENS[:6]) or l.strip() in ("Parameters", "Returns") for l in h.split("\n")):
+            # a section opens on a line that STARTS with a token; a keyword mentioned inside a prose line does not
             r.fail("token-in-header", "%s %r" % (tag, h[-80:]))
         if re.search(r"\bhw\d", mid):
             r.fail("header-word-in-section", "%s %r" % (tag, mid[:120]))
@@ -240,6 +241,8 @@ def oracle(d):
         r.label("footer")
     if d["lead_nl"]:
         r.label("leading-newline")
+    if d.get("mention"):
+        r.label("header-mentions-section-keyword")
     r.nontrivial = len(d["header_lines"]) >= 2 and (d["footer"] or d["indent"] > 0)
     return r
 
